@@ -40,6 +40,23 @@ def main(pid):
                               {'harness': e, 'assertion': msg, 'symbolic_draws': draws, 'native_failed': failed, 'native_output_tail': out[-1200:]}, key='%s:%s' % (pid, msg[:50]))
             else:
                 run.inconclusive.append('%s: "%s" fails under the section contracts but the native file scenarios pass' % (e, msg[:80]))
+        if pid == 'C15':
+            # callers: the commands that load a keys file stop when loading fails (they never go on with the half-loaded system)
+            try:
+                import cli_model
+                from gosym import Unsupported
+                progm = cli_model.load_main()
+                smm, table, flagdefs, _ = cli_model.command_table(progm)
+                hl = cli_model.half_loaded_rule(run, progm, smm, table, flagdefs, [c for c in ('prove', 'verify', 'start') if c in table])
+                if hl:
+                    o2 = cli_model.native_truncated_cli()
+                    if o2['failed']:
+                        run.violation('%s: goes on to %s with a proving system whose loading failed -- reproduced with the built binary: %s' % (hl[0][0], hl[0][1], o2['failed'][:2]),
+                                      {'findings': hl, 'native': o2}, key='C15:half-loaded-caller')
+                    else:
+                        run.inconclusive.append('%s uses the system after a failed load (%s) but the built binary behaves on truncated files' % hl[0])
+            except Unsupported as x:
+                run.inconclusive.append('command-line callers: unsupported by the encoder: %s' % x)
         run.assumptions += sorted(stubs.USED) + ['gnark key/constraint-system serialisers are opaque sections (contract), validated natively on a real file at replay']
         run.samples = run.obls[:4]
         if pid == 'C11':
